@@ -488,6 +488,34 @@ fn eval(g: &Group, t: &mut Tally) -> (Vec<(String, String)>, Vec<String>) {
                         format!("to_string {} Display {}", short(&ser), short(&disp)),
                     ));
                 }
+                // the canonical string depends only on the value: formatting parameters of the
+                // formatter (width, fill, alignment, precision, alternate, sign) must not change it
+                t.transitions += 1;
+                let n = ser.chars().count();
+                let specs = catch(|| {
+                    vec![
+                        ("width", format!("{val:w$}", w = n + 3)),
+                        ("fill-align", format!("{val:*^w$}", w = n + 4)),
+                        ("right-align", format!("{val:>w$}", w = n + 2)),
+                        ("precision", format!("{val:.p$}", p = n.saturating_sub(1))),
+                        ("precision-0", format!("{val:.0}")),
+                        ("alternate", format!("{val:#}")),
+                        ("zero-pad", format!("{val:0w$}", w = n + 2)),
+                    ]
+                });
+                match specs {
+                    Ok(list) => {
+                        for (name, text) in list {
+                            if text != ser {
+                                viol.push((
+                                    format!("display-format-parameter/{name}"),
+                                    format!("Display with {name} gives {} instead of {}", short(&text), short(&ser)),
+                                ));
+                            }
+                        }
+                    }
+                    Err(p) => viol.push((format!("panic/{}/display-format-parameter", p.file()), p.text)),
+                }
                 ser
             }
             (a, b, c) => {
